@@ -1,13 +1,29 @@
-(* Properties_C02.v — C02 (partial): on well-posed convex problems every solver stack converges to the minimiser.
-   PROVED (for all strongly convex QPs, all boxes C and D incl. infinite/equal sides, all dimensions):
+(* Properties_C02.v — C02: on well-posed convex problems every solver stack converges to the minimiser.
+   PROVED
+   (1) error bound (for all strongly convex QPs, all boxes C and D incl. infinite/equal sides, all dimensions):
      an approximate KKT pair (x, y) with tolerances (ε, δ) — which is what `Converged` certifies, see C01 — satisfies
-        mu ||x - xs||^2 <= eps ||x - xs||_1 + delta ||y - ys||_1       against the exact KKT pair (xs, ys).
-   NOT PROVED (stated here in full, explored on the implementation by the check's oracle): that every shipped stack
-     (ALM over PANOC/ZeroFPR/PANTR/FISTA with each direction provider, and each inner solver alone) DOES return Converged within the
-     iteration limits on such problems.  That liveness statement needs a convergence-rate analysis of the accelerated methods and of
-     the outer ALM loop which is outside what this development formalises; the missing link is named `stack_reaches_converged`.   *)
-From Coq Require Import Reals List ZArith Bool Lra.
-From Alpaqa Require Import Num NumR Vec Prox ProxProofs ProxVec QpBound.
+        mu ||x - xs||^2 <= eps ||x - xs||_1 + delta ||y - ys||_1       against the exact KKT pair (xs, ys).      [C02_qp_error_bound]
+   (2) LIVENESS of the inner solvers PANOC and ZeroFPR stand-alone (their whole-loop models Panoc.v / ZeroFpr.v, which whole-run
+     correspondence ties to the C++), over R, for EVERY direction provider (arbitrary values, failures at will; only the dimension of
+     the returned vector is assumed), on box-constrained problems whose cost has a global quadratic upper bound with constant
+     Lf <= L_max and is bounded below on C: the run returns Converged after fewer than N iterations, N explicit
+       PANOC,   criteria ProjGradNorm[2] / FPRNorm[2]:            C02_panoc_returns_converged, ..._explicit_N, C02_panoc_converged_point
+       PANOC,   default criterion ApproxKKT (∇ψ Lipschitz, Lg):   C02_panoc_returns_converged_ApproxKKT
+       ZeroFPR, criteria ProjGradNorm[2] / FPRNorm[2]:            C02_zerofpr_returns_converged
+     NoProgress is EXCLUDED (not assumed away): x_{k+1} = x_k at a completed iteration forces p_k = 0 by monotonicity of the envelope in γ,
+     which the stop check would have reported as Converged.  No hypothesis on max_no_progress, eager evaluation,
+     recompute_last_prox_step_after_stepsize_change, update_direction_in_candidate, always_overwrite_results.
+   (3) END TO END for PANOC stand-alone on box-constrained strongly convex QPs (m = 0), default criterion: Converged within N iterations
+     AND mu ||x̂ - x*||^2 <= tol ||x̂ - x*||_1.                                                    [C02_panoc_qp_converges_near_minimiser]
+   Hypotheses of (2),(3), all visible in the statements: coherent problem oracles; tolerance factors of the QUB and line-search tests
+     equal to 0 (with positive factors strict descent is lost); force_linesearch off; no stop request / time-out; max_iter >= N, fuel.
+   NOT PROVED (explored on the implementation by the check's oracle): liveness of the OUTER ALM loop and of PANTR / FISTA; ZeroFPR under
+     ApproxKKT; positive tolerance factors; the effect of binary64 rounding (the theorems are over R).  For those stacks the missing
+     link remains `stack_reaches_converged`. *)
+From Coq Require Import Reals List ZArith Bool Lra Lia.
+From Flocq Require Import Raux.
+From Alpaqa Require Import Num NumR Vec Prox ProxProofs ProxVec QpBound SolverStatus SolverKernels DescentProofs StopChain StopChainProofs
+                           Panoc PanocProofs LiveVec PanocLive PanocLiveN PanocLiveKkt QpLive ZeroFpr ZeroFprProofs ZeroFprLive.
 Import ListNotations.
 Local Open Scope R_scope.
 
@@ -49,4 +65,446 @@ Proof.
   repeat split; try lra; try (f_equal; lra).
   - constructor; [|constructor]. cbn. intros u [? ?]. lra.
   - constructor; [|constructor]. cbn. lra.
+Qed.
+
+(* ====================================================================================================================
+   LIVENESS of the inner solvers (whole-loop models, over R): the run DOES return Converged, within an explicit number of iterations,
+   for EVERY direction provider.  Proofs: PanocLive.v (+ LiveVec.v, PanocLiveN.v).
+   ==================================================================================================================== *)
+Section C02_PANOC_LIVE.
+  (* the outside world *)
+  Variable psi_grad_full : list R -> R * list R * list R.   (* eval_ψ_grad_ψ *)
+  Variable psi_yhat : list R -> R * list R.                 (* eval_ψ *)
+  Variable grad_L : list R -> list R -> list R.             (* eval_grad_L *)
+  Variable grad_psi : list R -> list R.                     (* eval_grad_ψ (initial Lipschitz estimate only) *)
+  Variables (lb ub : list (option R)).                      (* the box C; l1 = [] *)
+  Variable dir_apply : nat -> iterate (T:=R) -> option (list R).   (* the direction provider: ARBITRARY values, may fail at will *)
+  Variable has_initial : bool.
+  Variable P : params (T:=R).
+  Variables (x_in y_in Σ errz_in : list R).
+  Variable ls_fuel : nat.
+  (* the mathematical problem the oracles evaluate *)
+  Variables (ψ : list R -> R) (g : list R -> list R) (n : nat) (Lf ψinf : R).
+
+  Notation never := (fun _ : counters => false).             (* no stop request, no time-out *)
+  Notation run := (panoc psi_grad_full psi_yhat grad_L grad_psi lb ub [] dir_apply has_initial never never P x_in y_in Σ errz_in ls_fuel).
+  Notation Linit := (L_init psi_grad_full grad_psi P x_in).  (* L_0 if positive, else the clamped finite-difference estimate *)
+
+  Hypothesis oracle_values : forall x, psi_grad psi_grad_full x = (ψ x, g x).
+  Hypothesis oracles_coherent : coherent psi_grad_full psi_yhat grad_L P.
+  Hypothesis grad_length : forall x, length x = n -> length (g x) = n.
+  Hypothesis quadratic_upper_bound : forall u d, length u = n -> length d = n ->
+    ψ (vadd u d) <= ψ u + vdot (g u) d + Lf / 2 * vsqnorm d.
+  Hypothesis bounded_below_on_C : forall z, all_in_box lb ub z -> ψinf <= ψ z.
+  Hypothesis len_lb : length lb = n.
+  Hypothesis len_ub : length ub = n.
+  Hypothesis boxes_nonempty : Forall2 box_ne lb ub.
+  Hypothesis len_x : length x_in = n.
+  Hypothesis direction_dimension : forall j i q, dir_apply j i = Some q -> length q = n.
+  Hypothesis Lgamma_factor : 0 < p_Lgamma P < 1.
+  Hypothesis L_init_positive : 0 < Linit.
+  Hypothesis Lf_below_L_max : Lf <= p_Lmax P.
+  Hypothesis qub_tolerance_factor_zero : p_qub_tol P = 0.
+  Hypothesis linesearch_tolerance_factor_zero : p_ls_tol P = 0.
+  Hypothesis strictness_factor : 0 < p_beta P <= 1.
+  Hypothesis force_linesearch_off : p_force_ls P = false.
+  Hypothesis criterion : p_crit P = ProjGradNorm \/ p_crit P = ProjGradNorm2 \/ p_crit P = FPRNorm \/ p_crit P = FPRNorm2.
+  (* fuel of the inner loops = the bound of PANOC_linesearch_terminates *)
+  Variables (nL nT : nat).
+  Hypothesis L_max_reached : p_Lmax P <= Linit * 2 ^ nL.
+  Hypothesis tau_factor : 0 <= p_tau_factor P <= 1.
+  Hypothesis tau_min_reached : p_tau_factor P ^ nT < p_tau_min P.
+  Hypothesis linesearch_fuel : (ls_pass_bound nL nT <= ls_fuel)%nat.
+
+  (* the constants:  L̄ = max(L_init, 2 Lf),  γ0 = Lγ/L_init,  γmin = Lγ/L̄,  cmin = β(1-Lγ)/(2γ0),  tol = effective tolerance (> 0),
+     δ = tol (ProjGradNorm[2]) | tol·γmin (FPRNorm[2]),  dec = cmin·δ²,  Φ0 = φ_γmin(x_in) = ψ(x_in) + ‖p‖²/(2γmin) + ∇ψ(x_in)ᵀp *)
+  Notation Dec := (dec psi_grad_full grad_psi P x_in Lf).
+  Notation PHI0 := (Phi0 psi_grad_full grad_psi lb ub P x_in ψ g Lf).
+
+  Theorem C02_panoc_returns_converged : forall (N fuel : nat),
+    PHI0 - ψinf < INR N * Dec -> (N <= p_max_iter P)%nat -> (N < fuel)%nat ->
+    exists o, run fuel = Done o /\ out_status o = StConverged /\ (out_iterations o < N)%nat.
+  Proof.
+    exact (panoc_live_any_N psi_grad_full psi_yhat grad_L grad_psi lb ub dir_apply has_initial P x_in y_in Σ errz_in ls_fuel ψ g n Lf ψinf
+             oracle_values oracles_coherent grad_length quadratic_upper_bound bounded_below_on_C len_lb len_ub boxes_nonempty len_x
+             direction_dimension Lgamma_factor L_init_positive Lf_below_L_max qub_tolerance_factor_zero linesearch_tolerance_factor_zero
+             strictness_factor force_linesearch_off criterion nL nT L_max_reached tau_factor tau_min_reached linesearch_fuel).
+  Qed.
+
+  (* the same with N computed: N = Z.to_nat (up ((Φ0 - ψinf) / dec)) *)
+  Theorem C02_panoc_returns_converged_explicit_N : forall fuel : nat,
+    let N := Z.to_nat (up ((PHI0 - ψinf) / Dec)) in
+    (N <= p_max_iter P)%nat -> (N < fuel)%nat ->
+    exists o, run fuel = Done o /\ out_status o = StConverged /\ (out_iterations o < N)%nat.
+  Proof.
+    exact (panoc_live_explicit psi_grad_full psi_yhat grad_L grad_psi lb ub dir_apply has_initial P x_in y_in Σ errz_in ls_fuel ψ g n Lf ψinf
+             oracle_values oracles_coherent grad_length quadratic_upper_bound bounded_below_on_C len_lb len_ub boxes_nonempty len_x
+             direction_dimension Lgamma_factor L_init_positive Lf_below_L_max qub_tolerance_factor_zero linesearch_tolerance_factor_zero
+             strictness_factor force_linesearch_off criterion nL nT L_max_reached tau_factor tau_min_reached linesearch_fuel).
+  Qed.
+
+  (* and the point it returns is an ε-fixed point of the projected-gradient map (for all four criteria ε bounds ‖p‖ resp. ‖p‖/γ) *)
+  Theorem C02_panoc_converged_point : forall fuel o, run fuel = Done o -> out_status o = StConverged ->
+    exists (x : list R) (γ : R), 0 < γ /\
+      let p := snd (fst (proj_grad_step lb ub γ x (g x))) in
+      out_x o = vadd x p /\
+      out_eps o <= eff_tol (o_tol P) /\
+      out_eps o = match p_crit P with
+                  | ProjGradNorm2 => vnorm2 p | FPRNorm => vnorminf p / γ | FPRNorm2 => vnorm2 p / γ | _ => vnorminf p end.
+  Proof.
+    exact (panoc_converged_point psi_grad_full psi_yhat grad_L grad_psi lb ub dir_apply has_initial P x_in y_in Σ errz_in ls_fuel ψ g
+             oracle_values oracles_coherent Lgamma_factor L_init_positive criterion).
+  Qed.
+End C02_PANOC_LIVE.
+Print Assumptions C02_panoc_returns_converged.
+Print Assumptions C02_panoc_returns_converged_explicit_N.
+Print Assumptions C02_panoc_converged_point.
+
+(* the DEFAULT criterion ApproxKKT: ε = ‖p/γ + ∇ψ(x) - ∇ψ(x̂)‖∞; additionally ∇ψ Lipschitz (2-norm) with constant Lg *)
+Section C02_PANOC_LIVE_KKT.
+  Variable psi_grad_full : list R -> R * list R * list R.
+  Variable psi_yhat : list R -> R * list R.
+  Variable grad_L : list R -> list R -> list R.
+  Variable grad_psi : list R -> list R.
+  Variables (lb ub : list (option R)).
+  Variable dir_apply : nat -> iterate (T:=R) -> option (list R).   (* ARBITRARY *)
+  Variable has_initial : bool.
+  Variable P : params (T:=R).
+  Variables (x_in y_in Σ errz_in : list R).
+  Variable ls_fuel : nat.
+  Variables (ψ : list R -> R) (g : list R -> list R) (n : nat) (Lf ψinf Lg : R).
+
+  Notation never := (fun _ : counters => false).
+  Notation run := (panoc psi_grad_full psi_yhat grad_L grad_psi lb ub [] dir_apply has_initial never never P x_in y_in Σ errz_in ls_fuel).
+  Notation Linit := (L_init psi_grad_full grad_psi P x_in).
+
+  Hypothesis oracle_values : forall x, psi_grad psi_grad_full x = (ψ x, g x).
+  Hypothesis oracles_coherent : coherent psi_grad_full psi_yhat grad_L P.
+  Hypothesis grad_length : forall x, length x = n -> length (g x) = n.
+  Hypothesis quadratic_upper_bound : forall u d, length u = n -> length d = n ->
+    ψ (vadd u d) <= ψ u + vdot (g u) d + Lf / 2 * vsqnorm d.
+  Hypothesis gradient_lipschitz : forall u d, length u = n -> length d = n ->
+    vsqnorm (vsub (g u) (g (vadd u d))) <= Lg * Lg * vsqnorm d.
+  Hypothesis Lg_nonneg : 0 <= Lg.
+  Hypothesis bounded_below_on_C : forall z, all_in_box lb ub z -> ψinf <= ψ z.
+  Hypothesis len_lb : length lb = n.
+  Hypothesis len_ub : length ub = n.
+  Hypothesis boxes_nonempty : Forall2 box_ne lb ub.
+  Hypothesis len_x : length x_in = n.
+  Hypothesis direction_dimension : forall j i q, dir_apply j i = Some q -> length q = n.
+  Hypothesis Lgamma_factor : 0 < p_Lgamma P < 1.
+  Hypothesis L_init_positive : 0 < Linit.
+  Hypothesis Lf_below_L_max : Lf <= p_Lmax P.
+  Hypothesis qub_tolerance_factor_zero : p_qub_tol P = 0.
+  Hypothesis linesearch_tolerance_factor_zero : p_ls_tol P = 0.
+  Hypothesis strictness_factor : 0 < p_beta P <= 1.
+  Hypothesis force_linesearch_off : p_force_ls P = false.
+  Hypothesis criterion : p_crit P = ApproxKKT.
+  Variables (nL nT : nat).
+  Hypothesis L_max_reached : p_Lmax P <= Linit * 2 ^ nL.
+  Hypothesis tau_factor : 0 <= p_tau_factor P <= 1.
+  Hypothesis tau_min_reached : p_tau_factor P ^ nT < p_tau_min P.
+  Hypothesis linesearch_fuel : (ls_pass_bound nL nT <= ls_fuel)%nat.
+
+  (* dec_kkt = cmin·δ², δ = tol / (1/γmin + Lg) *)
+  Notation Dec := (dec_kkt psi_grad_full grad_psi P x_in Lf Lg).
+  Notation PHI0 := (Phi0 psi_grad_full grad_psi lb ub P x_in ψ g Lf).
+
+  Theorem C02_panoc_returns_converged_ApproxKKT : forall (N fuel : nat),
+    PHI0 - ψinf < INR N * Dec -> (N <= p_max_iter P)%nat -> (N < fuel)%nat ->
+    exists o, run fuel = Done o /\ out_status o = StConverged /\ (out_iterations o < N)%nat.
+  Proof.
+    exact (panoc_live_kkt psi_grad_full psi_yhat grad_L grad_psi lb ub dir_apply has_initial P x_in y_in Σ errz_in ls_fuel ψ g n Lf ψinf Lg
+             oracle_values oracles_coherent grad_length quadratic_upper_bound gradient_lipschitz Lg_nonneg bounded_below_on_C len_lb len_ub
+             boxes_nonempty len_x direction_dimension Lgamma_factor L_init_positive Lf_below_L_max qub_tolerance_factor_zero
+             linesearch_tolerance_factor_zero strictness_factor force_linesearch_off criterion nL nT L_max_reached tau_factor tau_min_reached
+             linesearch_fuel).
+  Qed.
+End C02_PANOC_LIVE_KKT.
+Print Assumptions C02_panoc_returns_converged_ApproxKKT.
+
+(* C02 END TO END for PANOC stand-alone on a box-constrained strongly convex QP (∇ψ(x) = Qx + c, m = 0), default criterion ApproxKKT:
+   the run returns Converged within N iterations AND the returned point satisfies the property's inequality
+        μ ‖x̂ - x*‖² <= tol ‖x̂ - x*‖₁          (liveness + C01's contract + C02_qp_error_bound).
+   The smoothness hypotheses on ψ hold for a QP with Lf, Lg >= ‖Q‖₂ (they are kept as hypotheses: Q enters only through Qmul). *)
+Section C02_PANOC_QP.
+  Variable psi_grad_full : list R -> R * list R * list R.
+  Variable psi_yhat : list R -> R * list R.
+  Variable grad_L : list R -> list R -> list R.
+  Variable grad_psi : list R -> list R.
+  Variables (lb ub : list (option R)).
+  Variable dir_apply : nat -> iterate (T:=R) -> option (list R).   (* ARBITRARY *)
+  Variable has_initial : bool.
+  Variable P : params (T:=R).
+  Variables (x_in y_in Σ errz_in : list R).
+  Variable ls_fuel : nat.
+  Variables (ψ : list R -> R) (g : list R -> list R) (n : nat) (Lf ψinf Lg : R).
+  Variables (Qmul : list R -> list R) (c : list R) (μ : R) (xs rs : list R).
+
+  Notation never := (fun _ : counters => false).
+  Notation run := (panoc psi_grad_full psi_yhat grad_L grad_psi lb ub [] dir_apply has_initial never never P x_in y_in Σ errz_in ls_fuel).
+  Notation Linit := (L_init psi_grad_full grad_psi P x_in).
+
+  Hypothesis gradient_of_qp : forall x, length x = n -> g x = vplus (Qmul x) c.
+  Hypothesis Q_length : forall x, length x = n -> length (Qmul x) = n.
+  Hypothesis c_length : length c = n.
+  Hypothesis xs_rs_length : length xs = n /\ length rs = n.
+  Hypothesis strongly_convex : forall x, length x = n -> μ_ok μ Qmul x xs.
+  Hypothesis exact_kkt_stationarity : vplus (Qmul xs) c = map Ropp rs.
+  Hypothesis exact_kkt_C : in_boxv lb ub xs /\ in_ncone lb ub xs rs.
+  Hypothesis oracle_values : forall x, psi_grad psi_grad_full x = (ψ x, g x).
+  Hypothesis oracles_coherent : coherent psi_grad_full psi_yhat grad_L P.
+  Hypothesis grad_length : forall x, length x = n -> length (g x) = n.
+  Hypothesis quadratic_upper_bound : forall u d, length u = n -> length d = n ->
+    ψ (vadd u d) <= ψ u + vdot (g u) d + Lf / 2 * vsqnorm d.
+  Hypothesis gradient_lipschitz : forall u d, length u = n -> length d = n ->
+    vsqnorm (vsub (g u) (g (vadd u d))) <= Lg * Lg * vsqnorm d.
+  Hypothesis Lg_nonneg : 0 <= Lg.
+  Hypothesis bounded_below_on_C : forall z, all_in_box lb ub z -> ψinf <= ψ z.
+  Hypothesis len_lb : length lb = n.
+  Hypothesis len_ub : length ub = n.
+  Hypothesis boxes_nonempty : Forall2 box_ne lb ub.
+  Hypothesis len_x : length x_in = n.
+  Hypothesis direction_dimension : forall j i q, dir_apply j i = Some q -> length q = n.
+  Hypothesis Lgamma_factor : 0 < p_Lgamma P < 1.
+  Hypothesis L_init_positive : 0 < Linit.
+  Hypothesis Lf_below_L_max : Lf <= p_Lmax P.
+  Hypothesis qub_tolerance_factor_zero : p_qub_tol P = 0.
+  Hypothesis linesearch_tolerance_factor_zero : p_ls_tol P = 0.
+  Hypothesis strictness_factor : 0 < p_beta P <= 1.
+  Hypothesis force_linesearch_off : p_force_ls P = false.
+  Hypothesis criterion : p_crit P = ApproxKKT.
+  Variables (nL nT : nat).
+  Hypothesis L_max_reached : p_Lmax P <= Linit * 2 ^ nL.
+  Hypothesis tau_factor : 0 <= p_tau_factor P <= 1.
+  Hypothesis tau_min_reached : p_tau_factor P ^ nT < p_tau_min P.
+  Hypothesis linesearch_fuel : (ls_pass_bound nL nT <= ls_fuel)%nat.
+
+  Notation Dec := (dec_kkt psi_grad_full grad_psi P x_in Lf Lg).
+  Notation PHI0 := (Phi0 psi_grad_full grad_psi lb ub P x_in ψ g Lf).
+
+  Theorem C02_panoc_qp_converges_near_minimiser : forall (N fuel : nat),
+    PHI0 - ψinf < INR N * Dec -> (N <= p_max_iter P)%nat -> (N < fuel)%nat ->
+    exists o, run fuel = Done o /\ out_status o = StConverged /\ (out_iterations o < N)%nat /\
+      μ * dot (vminus (out_x o) xs) (vminus (out_x o) xs) <= eff_tol (o_tol P) * norm1 (vminus (out_x o) xs).
+  Proof.
+    exact (panoc_qp_converges_near_minimiser psi_grad_full psi_yhat grad_L grad_psi lb ub dir_apply has_initial P x_in y_in Σ errz_in ls_fuel
+             ψ g n Lf ψinf Lg Qmul c μ xs rs gradient_of_qp Q_length c_length xs_rs_length strongly_convex exact_kkt_stationarity exact_kkt_C
+             oracle_values oracles_coherent grad_length quadratic_upper_bound gradient_lipschitz Lg_nonneg bounded_below_on_C len_lb len_ub
+             boxes_nonempty len_x direction_dimension Lgamma_factor L_init_positive Lf_below_L_max qub_tolerance_factor_zero
+             linesearch_tolerance_factor_zero strictness_factor force_linesearch_off criterion nL nT L_max_reached tau_factor tau_min_reached
+             linesearch_fuel).
+  Qed.
+End C02_PANOC_QP.
+Print Assumptions C02_panoc_qp_converges_near_minimiser.
+
+Section C02_ZEROFPR_LIVE.
+  Variable psi_grad_full : list R -> R * list R * list R.
+  Variable psi_yhat : list R -> R * list R.
+  Variable grad_L : list R -> list R -> list R.
+  Variable grad_psi : list R -> list R.
+  Variables (lb ub : list (option R)).
+  Variable dir_apply : nat -> iterate (T:=R) -> proxit (T:=R) -> option (list R).   (* ARBITRARY; also sees the prox iterate *)
+  Variable has_initial : bool.
+  Variable P : params (T:=R).
+  Variables (x_in y_in Σ errz_in : list R).
+  Variable ls_fuel : nat.
+  Variables (ψ : list R -> R) (g : list R -> list R) (n : nat) (Lf ψinf : R).
+
+  Notation never := (fun _ : counters => false).
+  Notation run := (zerofpr psi_grad_full psi_yhat grad_L grad_psi lb ub [] dir_apply has_initial never never P x_in y_in Σ errz_in ls_fuel).
+  Notation Linit := (L_init psi_grad_full grad_psi P x_in).
+
+  Hypothesis oracle_values : forall x, psi_grad psi_grad_full x = (ψ x, g x).
+  Hypothesis oracles_coherent : zcoherent psi_grad_full psi_yhat grad_L.
+  Hypothesis grad_length : forall x, length x = n -> length (g x) = n.
+  Hypothesis quadratic_upper_bound : forall u d, length u = n -> length d = n ->
+    ψ (vadd u d) <= ψ u + vdot (g u) d + Lf / 2 * vsqnorm d.
+  Hypothesis bounded_below_on_C : forall z, all_in_box lb ub z -> ψinf <= ψ z.
+  Hypothesis len_lb : length lb = n.
+  Hypothesis len_ub : length ub = n.
+  Hypothesis boxes_nonempty : Forall2 box_ne lb ub.
+  Hypothesis len_x : length x_in = n.
+  Hypothesis direction_dimension : forall j i px q, dir_apply j i px = Some q -> length q = n.
+  Hypothesis Lgamma_factor : 0 < p_Lgamma P < 1.
+  Hypothesis L_init_positive : 0 < Linit.
+  Hypothesis Lf_below_L_max : Lf <= p_Lmax P.
+  Hypothesis qub_tolerance_factor_zero : p_qub_tol P = 0.
+  Hypothesis linesearch_tolerance_factor_zero : p_ls_tol P = 0.
+  Hypothesis strictness_factor : 0 < p_beta P <= 1.
+  Hypothesis force_linesearch_off : p_force_ls P = false.
+  Hypothesis criterion : p_crit P = ProjGradNorm \/ p_crit P = ProjGradNorm2 \/ p_crit P = FPRNorm \/ p_crit P = FPRNorm2.
+  Variables (nL nT : nat).
+  Hypothesis L_max_reached : p_Lmax P <= Linit * 2 ^ nL.
+  Hypothesis tau_min_reached : (1 / 2) ^ nT < p_tau_min P.                (* ZeroFPR halves τ *)
+  Hypothesis linesearch_fuel : (ZeroFprProofs.ls_pass_bound nL nT <= ls_fuel)%nat.
+
+  Notation Dec := (dec psi_grad_full grad_psi P x_in Lf).
+  Notation PHI0 := (Phi0 psi_grad_full grad_psi lb ub P x_in ψ g Lf).
+
+  Theorem C02_zerofpr_returns_converged : forall (N fuel : nat),
+    PHI0 - ψinf < INR N * Dec -> (N <= p_max_iter P)%nat -> (N < fuel)%nat ->
+    exists o, run fuel = Done o /\ out_status o = StConverged /\ (out_iterations o < N)%nat.
+  Proof.
+    exact (fun N fuel HN Hmax Hf =>
+      zerofpr_live psi_grad_full psi_yhat grad_L grad_psi lb ub dir_apply has_initial P x_in y_in Σ errz_in ls_fuel ψ g n Lf ψinf
+             oracle_values oracles_coherent grad_length quadratic_upper_bound bounded_below_on_C len_lb len_ub boxes_nonempty len_x
+             direction_dimension Lgamma_factor L_init_positive Lf_below_L_max qub_tolerance_factor_zero linesearch_tolerance_factor_zero
+             strictness_factor force_linesearch_off criterion nL nT L_max_reached tau_min_reached linesearch_fuel
+             PHI0 N HN Hmax (Rle_refl _) fuel Hf).
+  Qed.
+End C02_ZEROFPR_LIVE.
+Print Assumptions C02_zerofpr_returns_converged.
+
+(* non-vacuity of the liveness theorem: ψ(x) = x²/2 on R (n = 1, C = R, Lf = 1, ψinf = 0), x_in = 1, L_0 = 1, Lγ = 1/2, L_max = 4, β = 1,
+   ProjGradNorm with tolerance 1: every hypothesis holds (L̄ = 2, γmin = 1/4, cmin = 1/2, dec = 1/2, Φ0 = 3/8, N = 1), so for EVERY
+   direction provider of dimension 1 the run converges before completing one iteration *)
+Definition lv_ψ (x : list R) : R := vsqnorm x / 2.
+Definition lv_P : params (T:=R) := mkParams 10 10 1 (1/1000000) (1/1000000) (1/2) 1 4 ProjGradNorm 0 0 1 (1/2) (1/4) false false false false true 1.
+Example C02_liveness_nonvacuous : forall (dir_apply : nat -> iterate (T:=R) -> option (list R)) (has_initial : bool),
+  (forall j i q, dir_apply j i = Some q -> length q = 1%nat) ->
+  exists o, panoc (T:=R) (fun x => (lv_ψ x, x, [])) (fun x => (lv_ψ x, [])) (fun x _ => x) (fun x => x) [None] [None] []
+                  dir_apply has_initial (fun _ => false) (fun _ => false) lv_P [1] [] [] [] 18 2 = Done o /\
+            out_status o = StConverged /\ (out_iterations o < 1)%nat.
+Proof.
+  intros dir_apply has_initial Hdir.
+  assert (HL : L_init (fun x => (lv_ψ x, x, [])) (fun x => x) lv_P [1] = 1).
+  { unfold L_init, init_L, lv_P. cbn [p_L0]. change (@nleb R NumR 1 (@n0 R NumR)) with (Rle_bool 1 0).
+    destruct (Rle_bool_spec 1 0) as [H|_]; [lra|]. reflexivity. }
+  apply (C02_panoc_returns_converged (fun x => (lv_ψ x, x, [])) (fun x => (lv_ψ x, [])) (fun x _ => x) (fun x => x) [None] [None]
+           dir_apply has_initial lv_P [1] [] [] [] 18 lv_ψ (fun x => x) 1 1 0) with (nL := 2%nat) (nT := 3%nat).
+  - intros x. reflexivity.
+  - intros x. reflexivity.
+  - intros x Hx. exact Hx.
+  - intros [|a [|? ?]] [|b [|? ?]]; cbn [length]; intros; try discriminate. unfold lv_ψ. cbn. lra.
+  - intros z _. unfold lv_ψ. pose proof (vsqnorm_nonneg z). lra.
+  - reflexivity.
+  - reflexivity.
+  - repeat constructor.
+  - reflexivity.
+  - exact Hdir.
+  - cbn. lra.
+  - rewrite HL. lra.
+  - cbn. lra.
+  - reflexivity.
+  - reflexivity.
+  - cbn. lra.
+  - reflexivity.
+  - left. reflexivity.
+  - rewrite HL. cbn. lra.
+  - cbn. lra.
+  - cbn. lra.
+  - cbn. lia.
+  - unfold Phi0. unfold dec, cmin, delta, gam0, gam_min, Lbar, tol, eff_tol. rewrite HL.
+    cbn [lv_P p_beta p_Lgamma p_crit o_tol]. change (@nltb R NumR (@n0 R NumR) 1) with (Rlt_bool 0 1).
+    destruct (Rlt_bool_spec 0 1) as [_|H]; [|lra].
+    replace (Rmax 1 (2 * 1)) with 2 by (unfold Rmax; destruct (Rle_dec 1 (2 * 1)); lra).
+    unfold lv_ψ, proj_grad_step. cbn. lra.
+  - cbn. lia.
+  - lia.
+Qed.
+
+(* the same instance for ZeroFPR *)
+Example C02_liveness_nonvacuous_zerofpr : forall (dir_apply : nat -> iterate (T:=R) -> proxit (T:=R) -> option (list R)) (has_initial : bool),
+  (forall j i px q, dir_apply j i px = Some q -> length q = 1%nat) ->
+  exists o, zerofpr (T:=R) (fun x => (lv_ψ x, x, [])) (fun x => (lv_ψ x, [])) (fun x _ => x) (fun x => x) [None] [None] []
+                  dir_apply has_initial (fun _ => false) (fun _ => false) lv_P [1] [] [] [] 18 2 = Done o /\
+            out_status o = StConverged /\ (out_iterations o < 1)%nat.
+Proof.
+  intros dir_apply has_initial Hdir.
+  assert (HL : L_init (fun x => (lv_ψ x, x, [])) (fun x => x) lv_P [1] = 1).
+  { unfold L_init, init_L, lv_P. cbn [p_L0]. change (@nleb R NumR 1 (@n0 R NumR)) with (Rle_bool 1 0).
+    destruct (Rle_bool_spec 1 0) as [H|_]; [lra|]. reflexivity. }
+  apply (C02_zerofpr_returns_converged (fun x => (lv_ψ x, x, [])) (fun x => (lv_ψ x, [])) (fun x _ => x) (fun x => x) [None] [None]
+           dir_apply has_initial lv_P [1] [] [] [] 18 lv_ψ (fun x => x) 1 1 0) with (nL := 2%nat) (nT := 3%nat).
+  - intros x. reflexivity.
+  - intros x. reflexivity.
+  - intros x Hx. exact Hx.
+  - intros [|a [|? ?]] [|b [|? ?]]; cbn [length]; intros; try discriminate. unfold lv_ψ. cbn. lra.
+  - intros z _. unfold lv_ψ. pose proof (vsqnorm_nonneg z). lra.
+  - reflexivity.
+  - reflexivity.
+  - repeat constructor.
+  - reflexivity.
+  - exact Hdir.
+  - cbn. lra.
+  - rewrite HL. lra.
+  - cbn. lra.
+  - reflexivity.
+  - reflexivity.
+  - cbn. lra.
+  - reflexivity.
+  - left. reflexivity.
+  - rewrite HL. cbn. lra.
+  - cbn. lra.
+  - cbn. lia.
+  - unfold Phi0. unfold dec, cmin, delta, gam0, gam_min, Lbar, tol, eff_tol. rewrite HL.
+    cbn [lv_P p_beta p_Lgamma p_crit o_tol]. change (@nltb R NumR (@n0 R NumR) 1) with (Rlt_bool 0 1).
+    destruct (Rlt_bool_spec 0 1) as [_|H]; [|lra].
+    replace (Rmax 1 (2 * 1)) with 2 by (unfold Rmax; destruct (Rle_dec 1 (2 * 1)); lra).
+    unfold lv_ψ, proj_grad_step. cbn. lra.
+  - cbn. lia.
+  - lia.
+Qed.
+
+(* non-vacuity of the end-to-end QP theorem (and of the ApproxKKT liveness theorem): min x²/2 on [-1, 2] from x_in = 1 (Q = 1, c = 0,
+   μ = Lf = Lg = 1, x* = 0 interior, rs = 0), ApproxKKT with tolerance 1:  δ = 1/5, dec = 1/50, Φ0 = 3/8, N = 19 *)
+Definition lv_Pk : params (T:=R) := mkParams 100 10 1 (1/1000000) (1/1000000) (1/2) 1 4 ApproxKKT 0 0 1 (1/2) (1/4) false false false false true 1.
+Example C02_qp_end_to_end_nonvacuous : forall (dir_apply : nat -> iterate (T:=R) -> option (list R)) (has_initial : bool),
+  (forall j i q, dir_apply j i = Some q -> length q = 1%nat) ->
+  exists o, panoc (T:=R) (fun x => (lv_ψ x, x, [])) (fun x => (lv_ψ x, [])) (fun x _ => x) (fun x => x) [Some (-1)] [Some 2] []
+                  dir_apply has_initial (fun _ => false) (fun _ => false) lv_Pk [1] [] [] [] 18 20 = Done o /\
+            out_status o = StConverged /\ (out_iterations o < 19)%nat /\
+            1 * dot (vminus (out_x o) [0]) (vminus (out_x o) [0]) <= eff_tol (o_tol lv_Pk) * norm1 (vminus (out_x o) [0]).
+Proof.
+  intros dir_apply has_initial Hdir.
+  assert (HL : L_init (fun x => (lv_ψ x, x, [])) (fun x => x) lv_Pk [1] = 1).
+  { unfold L_init, init_L, lv_Pk. cbn [p_L0]. change (@nleb R NumR 1 (@n0 R NumR)) with (Rle_bool 1 0).
+    destruct (Rle_bool_spec 1 0) as [H|_]; [lra|]. reflexivity. }
+  assert (Htol : eff_tol (o_tol lv_Pk) = 1).
+  { unfold eff_tol. cbn [lv_Pk o_tol]. change (@nltb R NumR (@n0 R NumR) 1) with (Rlt_bool 0 1).
+    destruct (Rlt_bool_spec 0 1) as [_|H]; [reflexivity|lra]. }
+  apply (C02_panoc_qp_converges_near_minimiser (fun x => (lv_ψ x, x, [])) (fun x => (lv_ψ x, [])) (fun x _ => x) (fun x => x)
+           [Some (-1)] [Some 2] dir_apply has_initial lv_Pk [1] [] [] [] 18 lv_ψ (fun x => x) 1 1 0 1 (fun x => x) [0] 1 [0] [0])
+    with (nL := 2%nat) (nT := 3%nat).
+  - intros [|a [|? ?]]; cbn [length]; intros; try discriminate. cbn. f_equal. lra.
+  - intros x Hx. exact Hx.
+  - reflexivity.
+  - split; reflexivity.
+  - intros [|a [|? ?]]; cbn [length]; intros; try discriminate. unfold μ_ok, dot, vminus. cbn. lra.
+  - cbn. f_equal. lra.
+  - unfold in_boxv, in_ncone. cbn [combine]. split; (apply Forall2_cons; [|apply Forall2_nil]).
+    + unfold in_box, lb_ok, ub_ok. cbn. lra.
+    + cbn. intros; lra.
+  - intros x. reflexivity.
+  - intros x. reflexivity.
+  - intros x Hx. exact Hx.
+  - intros [|a [|? ?]] [|b [|? ?]]; cbn [length]; intros; try discriminate. unfold lv_ψ. cbn. lra.
+  - intros [|a [|? ?]] [|b [|? ?]]; cbn [length]; intros; try discriminate. cbn. nra.
+  - lra.
+  - intros z _. unfold lv_ψ. pose proof (vsqnorm_nonneg z). lra.
+  - reflexivity.
+  - reflexivity.
+  - repeat constructor. cbn. lra.
+  - reflexivity.
+  - exact Hdir.
+  - cbn. lra.
+  - rewrite HL. lra.
+  - cbn. lra.
+  - reflexivity.
+  - reflexivity.
+  - cbn. lra.
+  - reflexivity.
+  - reflexivity.
+  - rewrite HL. cbn. lra.
+  - cbn. lra.
+  - cbn. lra.
+  - cbn. lia.
+  - unfold Phi0. unfold dec_kkt, delta_kkt, cmin, gam0, gam_min, Lbar, tol. rewrite HL, Htol.
+    cbn [lv_Pk p_beta p_Lgamma].
+    replace (Rmax 1 (2 * 1)) with 2 by (unfold Rmax; destruct (Rle_dec 1 (2 * 1)); lra).
+    unfold lv_ψ, proj_grad_step. cbn. numR. rbool; try lra.
+    all: replace (INR 19) with 19 by (simpl; lra); lra.
+  - cbn. lia.
+  - lia.
 Qed.
